@@ -7,6 +7,7 @@ import (
 	"encoding/json"
 	"flag"
 	"fmt"
+	"github.com/nyaruka/goflow/excellent/refactor"
 	"reflect"
 	"strconv"
 	"strings"
@@ -35,19 +36,21 @@ type c12Case struct {
 }
 
 type C12Line struct {
-	Src      string   `json:"src"`
-	Kind     string   `json:"kind"`
-	Body     []string `json:"body"`
-	OnlyBody bool     `json:"onlybody"`
-	Expect   []string `json:"expect"`
-	Text     string   `json:"text"`
-	Out      []string `json:"out"`
-	S        string   `json:"s"`
-	Out1     string   `json:"out1"`
-	Exp2     string   `json:"exp2"`
-	Out2     string   `json:"out2"`
-	Panic    string   `json:"panic"`
-	Desc     string   `json:"desc"`
+	Src       string   `json:"src"`
+	Kind      string   `json:"kind"`
+	Body      []string `json:"body"`
+	OnlyBody  bool     `json:"onlybody"`
+	Expect    []string `json:"expect"`
+	Text      string   `json:"text"`
+	Out       []string `json:"out"`
+	Rewritten bool     `json:"rewritten"` // the template went through an identity rewrite (refactor.Template) without error
+	RewOut    []string `json:"rewout"`    // ... and this is what the rewritten template evaluates to
+	S         string   `json:"s"`
+	Out1      string   `json:"out1"`
+	Exp2      string   `json:"exp2"`
+	Out2      string   `json:"out2"`
+	Panic     string   `json:"panic"`
+	Desc      string   `json:"desc"`
 }
 
 var sVariants = []string{" ", "\n", "é", "😀", "\t", "\u0001"}
@@ -176,7 +179,7 @@ func c12Scan(args []string) error {
 			d := *c
 			d.Variant = vi
 			d.Toks = nil
-			line := &C12Line{Src: fmt.Sprintf("%s/v%d", src, vi), Kind: c.Kind, Body: c.Body, OnlyBody: c.OnlyBody, Expect: c.Expect, Out: []string{}, Desc: string(mustJSON(d))}
+			line := &C12Line{Src: fmt.Sprintf("%s/v%d", src, vi), Kind: c.Kind, Body: c.Body, OnlyBody: c.OnlyBody, Expect: c.Expect, Out: []string{}, RewOut: []string{}, Desc: string(mustJSON(d))}
 			if line.Expect == nil {
 				line.Expect = []string{}
 			}
@@ -225,6 +228,24 @@ func c12Scan(args []string) error {
 				o, pan := safeTemplate(env, ctx, text)
 				line.Panic = pan
 				line.Out = classesOf(o, vi)
+				// the same template after a rewrite that changes nothing (as flow migrations and refactorings do: they
+				// scan without unescaping and write the pieces back): literal text must still be the same literal text
+				line.RewOut = []string{}
+				func() {
+					defer func() {
+						if r := recover(); r != nil && line.Panic == "" {
+							line.Panic = fmt.Sprintf("rewrite: %v", r)
+						}
+					}()
+					rew, rerr := refactor.Template(text, []string{"a"}, func(excellent.Expression) bool { return true })
+					if rerr == nil {
+						ro, rpan := safeTemplate(env, ctx, rew)
+						if rpan == "" {
+							line.Rewritten = true
+							line.RewOut = classesOf(ro, vi)
+						}
+					}
+				}()
 			case "literal":
 				s, t := instantiate(c.V, vi), instantiate(c.W, vi)
 				line.S = s
